@@ -44,7 +44,18 @@ class _:
         "_commit_call": "Optional[Ref_DelayedCall]", "_msg_block_d": "Optional[Ref_Deferred]",
         "_processor_d": "Optional[Ref_Deferred]", "_state": "str",
     }
+    rely = {
+        # while stop() is cancelling things, nothing else ends the run or clears the stopping flag (a nested stop() returns)
+        "stopping-is-exclusive": "implies(old(self._stopping), self._stopping and self._start_d == old(self._start_d))",
+    }
     invariant = {
+        # C13: timers referenced by the consumer are pending ones (a fired / cancelled timer is not kept)
+        "retry-live": "self._start_d is None or self._retry_call is None or active(self._retry_call)",
+        "stopping-implies-started": "not self._stopping or self._start_d is not None",
+        "idle-when-stopped": "self._start_d is not None or self._request_d is None",
+        "roles-apart": "(self._msg_block_d is None or ((self._start_d is None or self._start_d != self._msg_block_d) and "
+                       "(self._shutdown_d is None or self._shutdown_d != self._msg_block_d)))",
+        "looper-running": "self._commit_looper is None or running(self._commit_looper)",
         # C02: the block Deferred stands for "a block of messages is being processed": it is unfired while set
         "block-slot": "self._msg_block_d is None or not called(self._msg_block_d)",
         "config": "0 < self.retry_init_delay and self.retry_init_delay <= self.retry_max_delay and 0 <= self.request_retry_max_attempts "
@@ -83,14 +94,15 @@ method("_retry_fetch", "(%s, after: Optional[float] = None) -> None" % SELF,
        })
 
 method("_do_fetch", "(%s) -> None" % SELF, props=["C02", "C14"],
-       modifies=FETCH_FRAME,
+       modifies=FETCH_FRAME, inv_exempt_at_entry=["retry-live"],
        requires=["self._start_d is not None", "self._fetch_offset is not None",
-                 "self._fetch_offset != -101 or self.consumer_group is not None or not called(self._start_d)"],
+                 "self._request_d is None or self._retry_call is None or active(self._retry_call)",
+                 "self._fetch_offset != -101 or self.consumer_group"],
        ensures={"one-request[C02]": "implies(old(self._request_d) is not None, n_events('FetchRequest') + n_events('OffsetRequest') "
                                     "+ n_events('OffsetFetchRequest') == 0)"})
 
 method("_handle_offset_response", "(%s, responses: List[OffsetFetchResponse]) -> None" % SELF, props=["C14", "C03"],
-       requires=["len(responses) == 1", "self._start_d is not None", "responses[0].offset >= -1"],
+       requires=["len(responses) == 1", "self._start_d is not None", "responses[0].offset >= -1", "self.consumer_group"],
        checkpoints={"call:_do_fetch#1": {
            "delay-reset[C14]": "self.retry_delay == self.retry_init_delay and self._fetch_attempt_count == 1",
            "resume-after-committed[C03]": "implies(responses[0].offset != -1, self._fetch_offset == responses[0].offset + 1 "
@@ -193,3 +205,14 @@ method("_handle_fetch_response", "(%s, responses: List[FetchResponse]) -> None" 
                "nothing-skipped-on-growth[C14,C12]": "implies(len(messages) == 0, self._fetch_offset == old(self._fetch_offset))",
                "delay-reset[C14]": "implies(len(messages) == 0, self.retry_delay == self.retry_init_delay and self._fetch_attempt_count == 1)"}},
        )
+
+
+# ---- C13 -------------------------------------------------------------------------------------------------
+# Consumer.stop(): nine guarded cancellations, each an excursion into foreign code -> 500+ paths and >10 min of solver time
+# when executed symbolically.  It is covered by the bounded scenario stand-in (specs/scenarios.py) instead; its
+# re-entrancy guard is what the rely clause "stopping-is-exclusive" records, and every other entry point proves the
+# matching guarantee.
+method("start", "(%s, start_offset: int) -> Ref_Deferred" % SELF, props=["C13"],
+       raises={"RestartError[C13]": "iff:self._start_d is not None"},
+       checkpoints={"call:_do_fetch#1": {"fresh-run[C13]": "self._start_d is not None and not called(self._start_d) "
+                                                           "and self._fetch_offset == start_offset"}})
